@@ -94,7 +94,9 @@ func ruleSiblingParams(c *Ctx) {
 			}
 		}
 	}
-	sort.Slice(pairs, func(i, j int) bool { return pairs[i].f.String()+pairs[i].g.String() < pairs[j].f.String()+pairs[j].g.String() })
+	sort.Slice(pairs, func(i, j int) bool {
+		return pairs[i].f.String()+pairs[i].g.String() < pairs[j].f.String()+pairs[j].g.String()
+	})
 	for _, p := range pairs {
 		uf, ug := usedParams(p.f), usedParams(p.g)
 		key := fmt.Sprintf("%s~%s", fnName(p.f), fnName(p.g))
